@@ -414,7 +414,12 @@ def call_builtin(I: Interp, n: str, args, kwargs, fr: Frame, node=None):
         x, isr = I.num(args[0])
         if not isr:
             return SV(smt.mk_int(x), T.INT)
-        raise Refuse("round() of real")
+        if len(args) > 1 or kwargs:
+            raise Refuse("round() with a number of digits")
+        # round(x) on a real: nearest integer, ties to the even one
+        fl = z3.ToInt(x + z3.RealVal("1/2"))
+        tie = z3.ToReal(fl) == x + z3.RealVal("1/2")
+        return SV(smt.mk_int(z3.If(z3.And(tie, fl % 2 != 0), fl - 1, fl)), T.INT)
     if n == "print":
         return const(None)
     if n in ("any", "all"):
